@@ -928,13 +928,26 @@ Lemma keys_of_ext ids ids' : map fst ids' = map fst ids ->
   forall e, gk (keys_of ids) e = gk (keys_of ids') e.
 Proof. intros H. apply gk_ext. intros i. unfold keys_of. symmetry. apply has_key_fst. exact H. Qed.
 
+(* fix D15/D20: an identifier body is optimised entry by entry (Optimiser.entries) *)
+Lemma entries_good (f : expr -> out expr) e :
+  (forall x, gb x = true -> exists x', f x = Ok x' /\ gb x' = true) ->
+  gb e = true -> exists e', entries f e = Ok e' /\ gb e' = true.
+Proof.
+  intros Hf He. destruct e as [b l| | | | | | | | | | | | |]; try exact (Hf _ He).
+  unfold gb in He. cbn [gk] in He. apply andb_prop in He. destruct He as [Hs Hl].
+  destruct (mapM_good f (fun y => gb y = true) l) as (l' & Hm & Pl & _).
+  { intros x Hx. apply Hf. exact (C01.forallb_In _ _ _ Hl Hx). }
+  exists (EGroup b l'). cbn [entries]. rewrite Hm. cbn [bind]. split; [reflexivity|].
+  unfold gb. cbn [gk]. rewrite Hs. cbn [andb]. apply Forall_gk_forallb. exact Pl.
+Qed.
+
 Definition no_matrix_stage o ord (sw : switches) (dt : detection) : out detection :=
   do s1 <- (if sw_coalesce sw then
               do e <- coalesce (d_ids dt) (d_expr dt); Ok {| d_expr := e; d_ids := [] |}
             else Ok dt);
   do s2 <- (if sw_shake sw then
               do e <- shake ord (d_expr s1);
-              do ids <- map_ids (shake ord) (d_ids s1);
+              do ids <- map_ids (entries (shake ord)) (d_ids s1);
               Ok {| d_expr := e; d_ids := ids |}
             else Ok s1);
   Ok (if sw_rewrite sw then
@@ -947,7 +960,7 @@ Lemma optimise_detection_stage o ord sw dt :
   do s3 <- no_matrix_stage o ord sw dt;
   if sw_matrix sw then
     do e <- matrix ord (shake_fuel (d_expr s3)) (d_expr s3);
-    do ids <- map_ids (fun x => matrix ord (shake_fuel x) x) (d_ids s3);
+    do ids <- map_ids (entries (fun x => matrix ord (shake_fuel x) x)) (d_ids s3);
     Ok {| d_expr := e; d_ids := ids |}
   else Ok s3.
 Proof.
@@ -976,13 +989,13 @@ Proof.
   (* shake *)
   assert (H2 : exists s2, (if sw_shake sw then
               do e <- shake ord (d_expr s1);
-              do ids <- map_ids (shake ord) (d_ids s1);
+              do ids <- map_ids (entries (shake ord)) (d_ids s1);
               Ok {| d_expr := e; d_ids := ids |}
             else Ok s1) = Ok s2 /\ good_det s2).
   { destruct (sw_shake sw).
     - destruct (shake_good ord _ _ Hc1) as (e' & -> & Ge). cbn [bind].
-      destruct (map_ids_good (shake ord) (d_ids s1)) as (ids' & -> & Gi & Fi).
-      + intros e He. exact (shake_good ord _ _ He).
+      destruct (map_ids_good (entries (shake ord)) (d_ids s1)) as (ids' & -> & Gi & Fi).
+      + intros e He. apply entries_good; [|exact He]. intros x Hx. exact (shake_good ord _ _ Hx).
       + exact Hi1.
       + cbn [bind]. eexists. split; [reflexivity|]. split; cbn [d_expr d_ids]; [|exact Gi].
         rewrite <- (keys_of_ext _ _ Fi). exact Ge.
